@@ -305,6 +305,12 @@ def finish(ctx, replay_in_process=None):
     for path, c, out in violations:
         print(f"VIOLATION property={ctx.pid} replay={path}")
         print(f"  instance={c['key']} clause={c['clause']}: {c['what']}")
+    for path, c, out in list(notrepro):
+        if c.get("inputs", {}).get("abstract"):
+            # the obligation was decided over an over-approximating abstraction (e.g. an uninterpreted ln):
+            # a model that does not reproduce is spurious, the instance is inconclusive
+            ctx.inconc(c["key"], "solver model under an over-approximating abstraction did not reproduce: " + out[-120:])
+            notrepro.remove((path, c, out))
     for path, c, out in notrepro:
         ctx.harness_errors.append(
             f"counterexample for {c['key']} ({c['clause']}) did not reproduce on the real code: {out[-300:]}"
